@@ -89,16 +89,19 @@ func (c *c07Ctx) decode(in []byte, op string) (reflect.Value, error, bool) {
 	x := reflect.New(c.ty.rt)
 	// the input always sits at the same address (the caller's one receive buffer,
 	// new content every time), with exact capacity: reads past len fault in bounds checks
-	if cap(c07Arena) < len(in) {
+	if cap(c07Arena) < len(in)+8 {
 		c07Arena = make([]byte, 2*len(in)+64)
 	}
-	buf := c07Arena[:len(in):len(in)]
+	// ... at one of two offsets into the caller's buffer: its start, or three bytes in
+	// (a message behind a header; not aligned to a word)
+	off := (c.calls & 1) * 3
+	buf := c07Arena[off : off+len(in) : off+len(in)]
 	copy(buf, in)
-	if c.beyond != nil && cap(c07Arena) >= len(in)+len(c.beyond) {
+	if c.beyond != nil && cap(c07Arena) >= off+len(in)+len(c.beyond) {
 		// a prefix the caller sliced off in place (msg[:k]): the rest of the message
 		// is still there, behind len, inside the capacity
-		buf = c07Arena[:len(in)]
-		copy(c07Arena[len(in):], c.beyond)
+		buf = c07Arena[off : off+len(in)]
+		copy(c07Arena[off+len(in):], c.beyond)
 	}
 	precise := c.precise && c.calls%61 == 0
 	var before uint64
